@@ -188,7 +188,11 @@ def _compute_entrypoints(
             needed = tuple(
                 p
                 for p in node.inputs
-                if p in cycle_params and p not in bound and not _is_interrupt_produced(p, nodes) and not node.has_default_for(p)
+                if p in cycle_params
+                and any(src in scc for src in sources_of(p, nodes))  # fed from THIS cycle, not from an upstream one
+                and p not in bound
+                and not _is_interrupt_produced(p, nodes)
+                and not node.has_default_for(p)
             )
             if needed:  # Only include if node needs user-provided cycle params
                 entrypoints[node_name] = needed
